@@ -17,7 +17,8 @@ CLAIMED = {
              design='6 C05', technique='Coq proof: generic theorems + per-pair obligations over a model regenerated from source by a translator; bit-exact correspondence'),
  'C15': dict(text='For the 32 listed PGNs the reference layout table (transcribed from the published definitions, DESIGN.md Appendix A -> Spec/RefLayouts.v, 165 fields) is compared with the REGENERATED setter IR by the proved generic '
                   'theorem layout_sound: one computed layout_matches obligation per PGN gives, for all in-range arguments, that every reference field sits at its bit position with its width, byte order, signedness and resolution; '
-                  'the C++ setter bytes are additionally compared with the table run as an encoder.',
+                  'the C++ setter bytes are additionally compared with the table run as an encoder; the enumerators an application names for the enumerated fields are compared with the published codes '
+                  '(tools/ref_enum_codes.json, 14 enumerations) on every run; the NAME of PGN 60928 as a node builds it from run-time configuration calls in either order is decoded against the published bit layout.',
              note=TB + 'Oracle = my transcription of the public layouts.  7 fields (126464 list, 126993 interval in ms, five 129029 fields) are outside the bit-level theorem and compared on the C++ output only.',
              design='6 C05/C15', technique='Coq proof: generic layout theorem + per-PGN obligations over the regenerated model; reference-encoder comparison'),
  'C09': dict(text='Theorems about gf_lib (Model/GroupFnDefs.v), the model of the PGN 126208 handlers (decision + execution through rsend), for every payload up to 223 bytes: exactly one answer to the requester for addressed '
@@ -62,12 +63,15 @@ CLAIMED = {
                   'sequence ids of declared PGNs are consecutive for every send history; classification agrees with an independent reference table; refusals are silent; an accepted message reaches the driver as exactly '
                   'those frames.  The PGN tables and constants are regenerated from the C++ on every run; model and C++ are compared on every driver frame, result and internal state in both scheduler builds.',
              note=TB + 'Known finding (machine-checked refutation C01_seq_unrestricted_refuted + replayed on the C++): sequence ids break once undeclared fast-packet PGNs are sent.  ISO-TP carriage is C10; queueing is C11.  '
-                  'The translator tools/gen_tables.py (C preprocessor + pattern parser) is trusted for the tables; the reference classification Spec/PgnClassRef.v is my transcription.',
+                  'The translator tools/gen_tables.py (C preprocessor + pattern parser, cross-checked on every run by executing the compiled classification functions over every PGN below 2^24) is trusted for the tables; the reference classification Spec/PgnClassRef.v is my transcription.',
              design='6 C01', technique='Coq proof over executable model (tables regenerated from source) + extracted-model/implementation correspondence'),
  'C11': dict(text='Refinement theorems: one SendFrames/SendFrame of the ring model is one step of a FIFO list machine of capacity max-1 for every driver answer stream and every ring size >= 2; lifted to all operation '
                   'sequences (run_refines) with the corollary that accepted frames followed by the pending frames are exactly the frames whose send returned true, in order (no loss, duplicate or overtaking).  '
-                  'Model and C++ compared on every CANSendFrame call under exhaustive accept/refuse patterns and random long histories.',
-             note=TB + 'Modelled: CANSendFrameBuf ring of NMEA2000.cpp; the driver is an answer stream.  Driver-side buffering of concrete CAN drivers is out of scope.',
+                  'Lifted to the whole node (C11_node_*): for EVERY operation of the node model - receive, poll, timers, application sends, ISO-TP, group functions with the library handlers, every public '
+                  'call - the effect on send ring, driver and driver calls is a run of queue operations (node_step_qtrace), so over every history the driver calls are those of the list FIFO (node_run_fifo), '
+                  'nothing accepted is lost or duplicated (node_no_loss_no_dup) and a refused frame is the next one offered (node_retry).  '
+                  'Model and C++ compared on every CANSendFrame call under exhaustive accept/refuse patterns, random long histories and run-time mode switches with a backlog.',
+             note=TB + 'Modelled: CANSendFrameBuf ring of NMEA2000.cpp; the driver is an answer stream (its re-scripting by the test environment, OAccept, is stated separately).  Driver-side buffering of concrete CAN drivers is out of scope.',
              design='6 C11', technique='Coq refinement proof (ring -> FIFO list machine) + extracted-model/implementation correspondence'),
  'C20': dict(text='Refinement theorems, for every operation sequence, every size up to 65535 and every priority count: the model of tRingBuffer answers exactly like a FIFO of capacity size-1 and the model of '
                   'tPriorityRingBuffer exactly like the span list machine (per-priority order, lowest priority first, refusal at span = size-1, holes not compacted); the span machine is shown to keep a live head and '
@@ -105,7 +109,8 @@ CLAIMED = {
                   'only in a state where it is entitled (node open, not listen-only, source = current address of a device whose claim is not pending and <= 251, or PGN 60928), everything else the driver sees is a flush of '
                   'the queue; application sends in the forbidden states return false and leave queue and driver untouched.  Tied to the C++ by correspondence on claim-window histories; oracle independent of the model.',
              note=TB + 'Open known findings claim-window:queued-frame-flushed / former-address:queued-frame-flushed (D-05): the wire-level reading is machine-checked false (C04_wire_level_refuted) because frames queued earlier are '
-                  'flushed inside the window; wire_level is proved under the hypothesis that the queue holds no such frame.  Hypothesis clock_ok (64-bit clock below 2^63).  Debug modes dm_ClearText/dm_Actisense out of scope.  '
+                  'flushed inside the window; wire_level is proved under the hypothesis that the queue holds no such frame.  Same root cause through a run-time SetMode(listen-only) with a backlog: known finding '
+                  'listen-only:queued-frame-flushed (C04_runtime_listen_only_backlog_refuted; the listen-only statements carry the premise "send queue empty, as from construction").  Hypothesis clock_ok (64-bit clock below 2^63).  Debug modes dm_ClearText/dm_Actisense out of scope.  '
                   'gf contract proved for the no-op instance and for the library handlers (C04_gf_lib_ok).',
              design='6 C04', technique='Coq refinement proof (node step -> send-entitlement machine) + extracted-model/implementation correspondence'),
  'C02': dict(text='rx_no_corruption: for every group-function reaction satisfying a frame contract (proved for the library handlers), every clean node and EVERY operation list (any interleaving, any losses, any number of senders '
